@@ -128,6 +128,8 @@ pub fn one_case(kind: &str, si: &gen::SchemaInfo, input: &J, out: &mut Out) {
     }
 }
 
+fn merge_sdl() -> String { format!("{}\ninput In {{ a: Int  b: Int }}\ninterface Pet {{ name: String  nick: String  owner: Human }}\ntype Dog implements Pet {{ name: String  nick: String  barks: Boolean  owner: Human  n: Int  l: [Int]  m: Int! }}\ntype Cat implements Pet {{ name: String  nick: String  meows: Boolean  owner: Human  n: String  l: [Int!]  m: Int }}\nunion CatOrDog = Cat | Dog\ntype Human {{ name: String  nick: String  f(x: Int, y: [Int], o: In): Int  list: [Int]  nn: Int!  self: Human  pet: Pet  dog: Dog  cd: CatOrDog }}\ntype Query {{ human: Human  pet: Pet  dog: Dog  cat: Cat  cd: CatOrDog }}\n", schemas::PRELUDE) }
+
 fn frags_sdl() -> String { format!("{}\nscalar Custom\nenum E {{ X }}\ninput In {{ x: Int }}\ninterface I {{ a: Int  t: T }}\ninterface J implements I {{ a: Int  t: T }}\ninterface K {{ a: Int }}\ninterface L {{ a: Int }}\ntype T implements I & J & K {{ a: Int  t: T  i: I  j: J  u: U  k: K }}\ntype V {{ a: Int }}\ntype W implements I {{ a: Int  t: T }}\ntype X implements K & L {{ a: Int }}\nunion U = T | V\nunion U2 = V | W\ntype Query {{ a: Int  t: T  i: I  j: J  u: U  u2: U2  v: V  w: W  k: K  l: L  x: X }}\n", schemas::PRELUDE) }
 
 pub fn generate(kind: &str, thorough: bool, seed: u64, corpus: &str, out: &mut Out) {
@@ -272,6 +274,7 @@ pub fn generate(kind: &str, thorough: bool, seed: u64, corpus: &str, out: &mut O
             let mut sis = pool();
             for i in 0..(3 * scale) { sis.push(gen::SchemaInfo::new(&format!("random{}", i), &gen::random_schema(&mut rng))); }
             sis.push(gen::SchemaInfo::new("merge-order", &format!("{}\ntype Human {{ name: String  nn: Int!  self: Human }}\ntype Query {{ human: Human }}\n", schemas::PRELUDE)));
+            sis.push(gen::SchemaInfo::new("merge-abstract", &merge_sdl()));
             sis.push(gen::SchemaInfo::new("dup-names", &format!("{}\ntype Query {{ a: Int  f(x: Int!, y: Int, s: String): Int  t: T  u: U }}\ntype T {{ a: Int  t: T }}\ntype V {{ a: Int }}\nunion U = T | V\n", schemas::PRELUDE)));
             for si in &sis {
                 let mut docs: Vec<String> = corpus_docs(corpus, &si.name);
@@ -288,6 +291,22 @@ pub fn generate(kind: &str, thorough: bool, seed: u64, corpus: &str, out: &mut O
                               "{ ...F } fragment F on Query { a } fragment F on Query { a }",
                               "query Q { a } query Q { zz }", "query Q { a } query Q { f(x: 1) }", "{ f(x: 1, x: \"s\") }", "{ f(x: 1, s: \"s\", s: 2) }"] { docs.push(t.to_string()); }
                 }
+                if si.name == "merge-abstract" {
+                    // same-key fields under mutually exclusive parents (mostly valid): wrapping, inlining and permuting must not change the verdict
+                    docs.clear();
+                    let dv = ["k: name", "k: nick", "k: n", "k: barks", "k: owner { name }", "k: owner { name: nick }", "k: owner { k: self { name } }"];
+                    let cv = ["k: name", "k: nick", "k: n", "k: meows", "k: owner { name }", "k: owner { name: nick }", "k: owner { name: nn }", "k: owner { k: self { name: nick } }"];
+                    let mut n = 0usize;
+                    for a in dv.iter() { for b in cv.iter() {
+                        n += 1;
+                        if !thorough && n % 2 == 0 { continue; }
+                        docs.push(match n % 3 {
+                            0 => format!("{{ pet {{ ... on Dog {{ {} }} ... on Cat {{ {} }} }} }}", a, b),
+                            1 => format!("{{ cd {{ ...D ...C }} }} fragment D on Dog {{ {} }} fragment C on Cat {{ {} }}", a, b),
+                            _ => format!("{{ human {{ pet {{ ... on Dog {{ {} }} }} pet {{ ...C }} }} }} fragment C on Cat {{ {} }}", a, b),
+                        });
+                    } }
+                }
                 if si.name == "merge-order" {
                     docs.clear();
                     for t in ["{ human { t: self { x: name ...A ...F } } } fragment A on Human { ...G1 } fragment F on Human { ...G1 ...G2 } fragment G1 on Human { nn } fragment G2 on Human { x: nn }",
@@ -295,7 +314,7 @@ pub fn generate(kind: &str, thorough: bool, seed: u64, corpus: &str, out: &mut O
                               "{ human { x: name ...A } } fragment A on Human { ...B self { ...B } } fragment B on Human { x: nn }",
                               "{ human { self { x: name } ...A } } fragment A on Human { self { ...B } } fragment B on Human { x: name }"] { docs.push(t.to_string()); }
                 }
-                if si.name != "merge-order" && si.name != "dup-names" { for k in 0..(36 * scale) { let mut g = gen::DocGen::new(si, rng.fork(), [0, 0, 4, 12][k % 4], 2 + k % 3); docs.push(g.document()); } }
+                if si.name != "merge-order" && si.name != "dup-names" && si.name != "merge-abstract" { for k in 0..(36 * scale) { let mut g = gen::DocGen::new(si, rng.fork(), [0, 0, 4, 12][k % 4], 2 + k % 3); docs.push(g.document()); } }
                 // a permuted copy of the schema (definitions, fields, arguments, enum values, union members, interface lists, directive locations)
                 let psd = crate::rewrite::perm_schema(&si.doc, &mut rng);
                 let psi = gen::SchemaInfo::new(&format!("{}-permuted", si.name), &format!("{}", psd));
@@ -343,6 +362,13 @@ pub fn generate(kind: &str, thorough: bool, seed: u64, corpus: &str, out: &mut O
                     crate::valcases::accept_case(si, &t, &tmp, json!({"family": "valid-by-construction"}), out);
                 }
             }
+            // the per-rule enumerators of C04..C11 as whole-plan cases: the documents among them that violate none of the 24
+            // conditions (judged by the Lean spec) must be accepted
+            for k in ["c05", "c04", "c06", "c07", "c08", "c09", "c10", "c11"] {
+                crate::valcases::FULL_MODE.store(if thorough { 1 } else if k == "c05" { 3 } else { 11 }, std::sync::atomic::Ordering::Relaxed);
+                generate(k, false, seed ^ 0x3131, "", out);
+            }
+            crate::valcases::FULL_MODE.store(0, std::sync::atomic::Ordering::Relaxed);
             // valid usages of a nullable variable at a non-null location that declares a default (F13)
             let sdl = format!("{}\ninput In {{ v: Int! = 2  w: [Int!]! = [1] }}\ntype Query {{ f(d: Int! = 1, l: [Int]! = [], o: In, plain: Int): Int }}\ndirective @dd(d: Int! = 1) on FIELD\n", schemas::PRELUDE);
             let si = gen::SchemaInfo::new("locdefault", &sdl);
@@ -389,6 +415,12 @@ pub fn generate(kind: &str, thorough: bool, seed: u64, corpus: &str, out: &mut O
                 ("KnownDirectives", "{ a @nope }"), ("KnownDirectives", "{ a @onQuery }"), ("KnownDirectives", "query @onField { a }"),
                 ("UniqueDirectivesPerLocation", "{ a @onField @onField }"), ("UniqueDirectivesPerLocation", "{ t { t { a @skip(if: true) @skip(if: false) } } }"),
                 ("VariablesInAllowedPosition", "query ($v: String) { f(x: $v, r: 1) }"), ("VariablesInAllowedPosition", "query ($v: Int) { f(r: $v) }"), ("VariablesInAllowedPosition", "query ($v: [Int]) { t { g(l: $v, r: 1) } }"),
+                ("VariablesInAllowedPosition", "query ($v: Int) { f(r: $v) k: f(x: $v, r: 1) }"), ("VariablesInAllowedPosition", "query ($v: Int) { k: f(x: $v, r: 1) f(r: $v) }"),
+                ("VariablesInAllowedPosition", "query ($v: Int) { f(x: $v, r: $v) }"), ("VariablesInAllowedPosition", "query ($v: Int) { f(r: $v, x: $v) }"),
+                ("VariablesInAllowedPosition", "query ($v: Int) { t { ...F } } fragment F on T { g(r: $v) k: g(i: $v, r: 1) }"),
+                ("VariablesInAllowedPosition", "query ($v: Int) { t { ...F } } fragment F on T { k: g(i: $v, r: 1) g(r: $v) }"),
+                ("VariablesInAllowedPosition", "query ($v: Int) { f(x: $v, r: 1) t { ...F } } fragment F on T { g(r: $v) }"),
+                ("VariablesInAllowedPosition", "query ($v: Int) { t { ...F } k: f(x: $v, r: 1) } fragment F on T { g(r: $v) }"),
                 ("ValuesOfCorrectType", "{ f(x: \"s\", r: 1) }"), ("ValuesOfCorrectType", "{ t { g(o: {opt: \"x\"}, r: 1) } }"), ("ValuesOfCorrectType", "{ t { t { g(l: [1, null], r: 1) } } }"), ("ValuesOfCorrectType", "{ f(r: null) }"),
                 ("VariablesAreInputTypes", "query ($v: T) { a }"),
             ];
@@ -440,6 +472,20 @@ pub fn generate(kind: &str, thorough: bool, seed: u64, corpus: &str, out: &mut O
                 variant += 1;
                 crate::valcases::termination_case(&si, &graph_doc(n, adj, variant), &tmp, "fragment-graph", out);
             }
+            // (1b) the same fragment pair compared first under mutually exclusive parents, then under parents that may coincide
+            // (and the other way round): the compared-pairs memo is keyed by the pair and keeps the exclusivity flag
+            for adj in 0..(1u64 << 9) {
+                if !thorough && adj % 3 != 0 { continue; }
+                let mut frs = String::new();
+                for j in 0..3 {
+                    let mut body = String::from(if j == 2 { "b" } else { "a" });
+                    for k in 0..3 { if adj >> (j * 3 + k) & 1 == 1 { body.push_str(&format!(" ...F{}", k)); } }
+                    frs.push_str(&format!(" fragment F{} on T {{ {} }}", j, body));
+                }
+                let excl = "u { ... on T { t { ...F0 } } ... on V { t { ...F1 } } }"; let plain = "t { ...F0 ...F1 }";
+                let t = if adj % 2 == 0 { format!("{{ {} {} }}{}", excl, plain, frs) } else { format!("{{ {} {} }}{}", plain, excl, frs) };
+                crate::valcases::termination_case(&si, &t, &tmp, "exclusive-then-plain", out);
+            }
             // the canonical witnesses
             for t in ["{ t { ...F } } fragment F on T { t { t { ...F } ...F } }", "{ ...F } fragment F on Query { ...F }", "{ t { ...A } } fragment A on T { t { ...B } } fragment B on T { t { ...A } }",
                       "{ t { ...A ...B } } fragment A on T { a ...B } fragment B on T { a ...A }", "{ t { ...A } } fragment A on T { ... on T { ... on T { ...A } } }",
@@ -485,11 +531,13 @@ pub fn generate(kind: &str, thorough: bool, seed: u64, corpus: &str, out: &mut O
         }
         "c05" => {
             let tmp = tmpdir();
-            let sdl = format!("{}\ninput In {{ a: Int  b: Int }}\ninterface Pet {{ name: String  nick: String  owner: Human }}\ntype Dog implements Pet {{ name: String  nick: String  barks: Boolean  owner: Human  n: Int  l: [Int]  m: Int! }}\ntype Cat implements Pet {{ name: String  nick: String  meows: Boolean  owner: Human  n: String  l: [Int!]  m: Int }}\nunion CatOrDog = Cat | Dog\ntype Human {{ name: String  nick: String  f(x: Int, y: [Int], o: In): Int  list: [Int]  nn: Int!  self: Human  pet: Pet  dog: Dog  cd: CatOrDog }}\ntype Query {{ human: Human  pet: Pet  dog: Dog  cat: Cat  cd: CatOrDog }}\n", schemas::PRELUDE);
+            let sdl = merge_sdl();
             let si = gen::SchemaInfo::new("merge", &sdl);
             out.schema(&si);
             let mut group = 0usize;
             let mut emit = |t: String, family: &str, group: usize, out: &mut Out| {
+                // declare $v only where it is used (whole-plan runs of these documents must not all fail on an unused variable)
+                let t = if t.starts_with("query ($v: Int) ") && !t["query ($v: Int) ".len()..].contains("$v") { t["query ($v: Int) ".len()..].to_string() } else { t };
                 crate::valcases::merge_case(&si, &t, &tmp, json!({"family": family, "group": group}), out);
             };
             // ---- pairs of same-key fields on Human
@@ -736,8 +784,10 @@ pub fn generate(kind: &str, thorough: bool, seed: u64, corpus: &str, out: &mut O
                 args.push(format!("dbox{}: DBox{}", k, k));
                 boxes.push_str(&format!("input Box{} {{ v: {} }}\ninput DBox{} {{ v: {} = {} }}\n", k, show(t), k, show(t), literal(t)));
             }
-            let sdl = format!("{}\nenum Color {{ RED GREEN }}\ninput In {{ req: Int!  opt: String  nest: In }}\n{}\ntype Query {{ f({}): Int  w: W  plain(i: Int, s: String, l: [Int], inp: In): Int }}\ntype W {{ g({}): Int  w: W }}\ninterface Node {{ id: ID }}\nunion U = W | Query\nscalar Custom\ndirective @d({}) on FIELD | QUERY | FRAGMENT_SPREAD | INLINE_FRAGMENT\n",
-                schemas::PRELUDE, boxes, args.join(", "), args.join(", "), args.join(", "));
+            // one single-argument field per type: a usage there is the document's only possible violation
+            let pfields: String = tys.iter().enumerate().map(|(k, t)| format!("p{}(v: {}): Int", k, show(t))).collect::<Vec<_>>().join("  ");
+            let sdl = format!("{}\nenum Color {{ RED GREEN }}\ninput In {{ req: Int!  opt: String  nest: In }}\n{}\ntype Query {{ f({}): Int  w: W  plain(i: Int, s: String, l: [Int], inp: In): Int  {} }}\ntype W {{ g({}): Int  w: W  {} }}\ninterface Node {{ id: ID }}\nunion U = W | Query\nscalar Custom\ndirective @d({}) on FIELD | QUERY | FRAGMENT_SPREAD | INLINE_FRAGMENT\n",
+                schemas::PRELUDE, boxes, args.join(", "), pfields, args.join(", "), pfields, args.join(", "));
             let si = gen::SchemaInfo::new("vars", &sdl);
             out.schema(&si);
             let mut i = 0usize;
@@ -756,6 +806,7 @@ pub fn generate(kind: &str, thorough: bool, seed: u64, corpus: &str, out: &mut O
                                 (format!("f(l{}: [$x])", kl), lt.clone(), false),
                                 (format!("f({}box{}: {{v: $x}})", if loc_default { "d" } else { "" }, kl), lt.clone(), loc_default),
                                 (format!("...F"), lt.clone(), loc_default),
+                                (format!("w {{ p{}(v: $x) }}", kl), lt.clone(), false),
                             ];
                             for (p, (site, l, ld)) in sites.iter().enumerate() {
                                 if !(thorough || p == i % sites.len()) { continue; }
@@ -771,6 +822,20 @@ pub fn generate(kind: &str, thorough: bool, seed: u64, corpus: &str, out: &mut O
                     }
                 }
             }
+            // ---- one variable used at two locations of different types within one scope (operation body / fragment)
+            let mut j = 0usize;
+            for vt in tys.iter().take(7) { for kl1 in 0..7usize { for kl2 in 0..7usize {
+                for tpl in 0..3usize {
+                    j += 1;
+                    if !thorough && j % 3 != 0 { continue; }
+                    let doc = match tpl {
+                        0 => format!("query ($x: {}) {{ f(a{}: $x, a{}: $x) }}", show(vt), kl1, kl2),
+                        1 => format!("query ($x: {}) {{ p{}(v: $x) w {{ p{}(v: $x) }} }}", show(vt), kl1, kl2),
+                        _ => format!("query ($x: {}) {{ ...F }} fragment F on Query {{ w {{ p{}(v: $x) }} p{}(v: $x) }}", show(vt), kl1, kl2),
+                    };
+                    crate::valcases::rules_case(&si, &doc, &rules, &tmp, out);
+                }
+            } } }
             // ---- definitions and uses across operations and fragments
             let defs = |m: usize| -> String {
                 let v: Vec<&str> = [(1, "$x: Int"), (2, "$y: Int")].iter().filter(|(b, _)| m & b != 0).map(|(_, t)| *t).collect();
@@ -972,6 +1037,21 @@ pub fn generate(kind: &str, thorough: bool, seed: u64, corpus: &str, out: &mut O
                     let name = if i % 2 == 0 { " Sub" } else { "" };
                     let text = format!("subscription{} {} fragment F on Subscription {{ s1 ...G }} fragment G on Subscription {{ k: s2 ...F }}", name, b);
                     crate::valcases::rules_case(si, &text, &rules, &tmp, out);
+                }
+            }
+            // a subscription root that implements an interface and is a member of a union: fragments on those apply to it
+            {
+                let si = gen::SchemaInfo::new("abstract-root", &format!("{}{}", schemas::PRELUDE, "interface Feed { s1: Int s2: Int } type Other implements Feed { s1: Int s2: Int } union SubU = Subscription | Other type Query { a: Int } type Subscription implements Feed { s1: Int s2: Int }"));
+                out.schema(&si);
+                let budget = if thorough { 4 } else { 3 };
+                let bodies = crate::enumgen::selsets(&["s1", "s2", "k: s1", "__typename"], &["", "Feed", "SubU", "Other", "Subscription"], &["F", "G"], budget, 3);
+                for (i, b) in bodies.iter().enumerate() {
+                    let text = match i % 3 {
+                        0 => format!("subscription Sub {} fragment F on Feed {{ s1 ...G }} fragment G on SubU {{ ... on Subscription {{ k: s2 }} ...F }}", b),
+                        1 => format!("subscription {} fragment F on SubU {{ ... on Feed {{ s2 }} }} fragment G on Other {{ k: s1 }}", b),
+                        _ => format!("subscription {} fragment F on Feed {{ __typename }} fragment G on Feed {{ s1 }}", b),
+                    };
+                    crate::valcases::rules_case(&si, &text, &rules, &tmp, out);
                 }
             }
             for si in pool() {
